@@ -164,6 +164,77 @@ def edit(res, rng, api, pat, proj, setter, fault_at, scribble, dup_yield, case):
     return ownership_ok(res, pat, proj, case, setter)
 
 
+def untouched_pattern_faults(res, rng, api, shapes):
+    """A freshly constructed pattern whose cell grid was never read or written: its contents are, by definition,
+    all-empty cells.  The monitor must not touch .data / .raw_data before the faulty edit (that would create the grid)."""
+    for tracks, lines in shapes:
+        cells = tracks * lines
+        for setter in ("fn", "gen"):
+            for attached in (False, True):
+                for k in sorted({0, 1, cells // 2, cells - 1}):
+                    if k < 0 or k >= cells:
+                        continue
+                    pat = api.Pattern(tracks=tracks, lines=lines)
+                    if attached:
+                        proj = api.Project()
+                        proj.attach_pattern(pat)
+                    counter = {"n": 0}
+                    case = {"tracks": tracks, "lines": lines, "setter": setter, "fault_at": k, "attached": attached, "untouched": True}
+                    res.case(("untouched", tracks, lines, setter, k, attached))
+                    res.count("untouched_pattern_faults")
+
+                    def fn(p, ln, tr):
+                        i = counter["n"]
+                        counter["n"] += 1
+                        if i == k:
+                            raise Injected("cell")
+                        return make_note(rng, api)
+
+                    def gen(p, new):
+                        for ln in range(lines):
+                            for tr in range(tracks):
+                                if counter["n"] == k:
+                                    raise Injected("yield")
+                                counter["n"] += 1
+                                yield ln, tr, make_note(rng, api)
+                    try:
+                        pat.set_via_fn(fn) if setter == "fn" else pat.set_via_gen(gen)
+                    except Injected:
+                        pass
+                    res.count("edits_failed_injected")
+                    res.count("atomicity_checks")
+                    if pat.raw_data != bytes(8 * cells):
+                        res.violation(f"C19:not-atomic:{setter}", f"{setter} on a never-touched {tracks}x{lines} pattern failed at {k} but the pattern is no longer empty", case)
+
+
+def foreign_owned_notes(res, rng, api):
+    """The callable hands over Note objects that currently belong to ANOTHER pattern (copying from a template without
+    clone()).  After the edit they are contents of this pattern and must be owned by it."""
+    for attached_src in (False, True):
+        for attached_dst in (False, True):
+            for setter in ("fn", "gen"):
+                src = api.Pattern(tracks=3, lines=4)
+                for ln in range(4):
+                    for tr in range(3):
+                        src.data[ln][tr].vel = 1 + ln * 3 + tr
+                if attached_src:
+                    sp = api.Project()
+                    sp.attach_pattern(src)
+                dst, proj = new_pattern(rng, api, 3, 4, attached_dst)
+                case = {"setter": setter, "source_attached": attached_src, "destination_attached": attached_dst, "notes": "taken from another pattern"}
+                res.case(("foreign-notes", setter, attached_src, attached_dst))
+                res.count("foreign_owned_note_edits")
+                if setter == "fn":
+                    dst.set_via_fn(lambda p, ln, tr: src.data[ln][tr])
+                else:
+                    dst.set_via_gen(lambda p, new: ((ln, tr, src.data[ln][tr]) for ln in range(4) for tr in range(3)))
+                res.count("edits_succeeded")
+                if [[n.vel for n in line] for line in dst.data] != [[1 + ln * 3 + tr for tr in range(3)] for ln in range(4)]:
+                    res.violation(f"C19:wrong-note:{setter}", "notes taken from another pattern were not installed", case)
+                    continue
+                ownership_ok(res, dst, proj, case, setter)
+
+
 def run_exhaustive(res, rng, api, shapes):
     for tracks, lines in shapes:
         cells = tracks * lines
@@ -211,6 +282,8 @@ def run_shard(spec_, res):
     rng = random.Random(spec_["seed"])
     if spec_["part"] == "exhaustive":
         run_exhaustive(res, rng, api, [tuple(s) for s in spec_["shapes"]])
+        untouched_pattern_faults(res, rng, api, [tuple(s) for s in spec_["shapes"]])
+        foreign_owned_notes(res, rng, api)
         res.sample({"shape": spec_["shapes"][0], "setter": "fn", "fault_at": "every cell index, then success"})
     else:
         run_random(res, rng, api, spec_["n"])
